@@ -590,6 +590,9 @@ class App(falcon.app.App):
                 raise
 
             req_succeeded = False
+            # NOTE: Rendering failed part-way; do not fall through to
+            #   streaming resp.stream (the WSGI app sends an empty body here).
+            data = b''
 
         resp_status: int = resp.status_code
         default_media_type: Optional[str] = self.resp_options.default_media_type
